@@ -56,6 +56,8 @@ def value_text(spec, t, style):
     if t in TEXT:
         return str(v)
     if t in REAL:
+        if style.get("value_hex2c") and float(v) == int(v) and v >= 0:
+            return "0x%X" % int(v)       # a whole number, written like every other number of a hex-only document
         return repr(float(v))
     if t == 1:
         return "1" if v else "0"
